@@ -80,6 +80,29 @@ def check(run):
         if not (np.array_equal(a, minor[sub]) and np.array_equal(b, middle[sub]) and np.array_equal(c, major[sub])):
             run.violation('euler-batch-dependence', dict(codes=sub.tolist()[:10]))
             break
+    # the same input buffer refilled in place, and same-length fresh arrays one after the other (a freed block is handed out
+    # again at the same address): each decode depends on the codes only; results handed out earlier stay what they were
+    for n in (1, 10, 500):
+        buf = np.empty(n, dtype=np.uint16)
+        held = None
+        for r in range(15 if run.quick else 60):
+            new = rng.integers(0, NCODES, n)
+            if r % 5 in (1, 2):  # two consecutive calls on the very same buffer, refilled in between
+                buf[:] = new
+                arg = buf
+            else:  # consecutive calls on fresh arrays of the same length
+                arg = new.astype(np.uint16)
+            a, b, c = chc._unpack_euler16(arg)
+            run.ev(n)
+            run.nt(('buffer-reuse', n, r % 2))
+            if not (np.array_equal(a, minor[new]) and np.array_equal(b, middle[new]) and np.array_equal(c, major[new])):
+                run.violation('euler-batch-dependence', dict(problem='decode of a refilled / same-address input differs', n=n, call=r, codes=new[:6].tolist()))
+                break
+            if held is not None and not (np.array_equal(held[0], held[3][0]) and np.array_equal(held[1], held[3][1]) and np.array_equal(held[2], held[3][2])):
+                run.violation('euler-earlier-result-changed', dict(n=n, call=r))
+                break
+            held = (a, b, c, (a.copy(), b.copy(), c.copy()))
+            del arg
     # the codes may arrive in any integer dtype that can hold them
     for dt in (np.uint16, np.int32, np.int64, np.uint32, np.uint64):
         sub = rng.integers(0, NCODES, 5000)
